@@ -6,6 +6,8 @@
           machine over an abstract file system, N = 1 serial build, N = 1..4 MPI ranks; write-read layouts and free
           histories with re-used objects; files planted by the environment: other process count, truncated, damaged)
           -> harness/c05x_dist.cpp (std and mpi variant)
+  iofile  spec/Persist.tla (the registered generator) replayed through the file NAME overloads write_out/read_from(mode, filename) of
+          DenseVector, DenseVectorBlocked, SparseVector, SparseMatrixCSR (sample) -> harness/c05x_ckpt.cpp
   ckfile  spec/PersistCkptFile.tla (CheckpointControl::save/load through files, extension handling, fresh control
           object, fresh process, Global::Vector / Global::Matrix wrappers) -> harness/c05x_ckpt.cpp (std and mpi variant)
 
@@ -87,6 +89,9 @@ def sig(c, r):
              "reject_why": next((x.get("why", "") for x in c["steps"] if x.get("expect") == "reject"), ""),
              "assert": ex, "function": fn, "outcome": "abort" if oc.startswith("exit") else oc}
         return s
+    if c["part"] == "io":
+        return {"part": "iofile", "kind": c["kind"], "mode": c["mode"], "m": c["m"], "n": c["n"], "cdt": c["cdt"],
+                "stage": "read" if "/read" in why else ("write" if "/write" in why else "other"), "outcome": oc}
     m = re.search(r"(?:f64/u64|f32/u32)/([\w ]+)", why)
     return {"part": "ckfile", "nr": c["nr"], "variant": c.get("variant", ""), "cdt": c["cdt"], "wrap": c["wrap"], "fname": c["fname"]["arg"],
             "nobj": len(c["ids"]), "phase": c.get("phase", 1), "rejop": c.get("rejop", ""), "what": m.group(1).strip() if m else ("precond" if "precond" in why else ""),
@@ -98,6 +103,8 @@ def key(c):
         return json.dumps(["pack", c["kind"], c.get("cls"), c.get("sw"), c.get("pw"), c.get("dw"), c.get("swap"), c.get("pcode"), c.get("what"), c.get("vals")])
     if c["part"] == "dist":
         return json.dumps(["dist", c["nr"], c.get("variant"), [[s[k] for k in sorted(s) if k not in ("bytes", "files", "com", "buf", "raw", "exp")] for s in c["steps"]]])
+    if c["part"] == "io":
+        return json.dumps(["iofile", c["kind"], c["m"], c["n"], c["rep"], bool(c.get("alloc")), c["mode"], c["cdt"]])
     return json.dumps(["ckfile", c["nr"], c.get("variant"), c["cdt"], c["wrap"], c["fname"]["arg"], c["ids"], c["restore"], c.get("phase", 1), c.get("rejop", ""),
                        [[o["c"]["kind"], o["c"]["m"]] for o in c["ranks"][0]["objs"]]])
 
@@ -107,6 +114,8 @@ def nontrivial(c):
         return c["kind"] != "codec" or c["count"] > 0
     if c["part"] == "dist":
         return any(any(len(d) > 0 for d in s.get("data", [])) or len(s.get("bytes", [])) > 0 for s in c["steps"])
+    if c["part"] == "io":
+        return len(c["arrays"]["el"]) > 0
     return True
 
 
@@ -138,14 +147,14 @@ def _replay(binary, cases, nr, variant, env, tmo=30, shards=None):
     if variant == "mpi":
         shards = shards or max(1, min(3, 9 // nr))
     try:
-        return vlib.run_cases(binary, cases, tmo=tmo, shards=shards, env=env, wrapper=wrapper, max_abnormal=60)
+        return vlib.run_cases(binary, cases, tmo=tmo, shards=shards, env=env, wrapper=wrapper, max_abnormal=60 if variant != "mpi" else 20)
     except vlib.MachineryError as e:
         if variant != "mpi":
             raise
         # an mpirun that fails to start on the loaded machine (ORTE out of resource) is not a statement about the property: one retry, one job
         vlib.log("[c05x] replay failed to start (%s); retrying once" % str(e).splitlines()[0][:200])
         time.sleep(2)
-        return vlib.run_cases(binary, cases, tmo=tmo, shards=1, env=env, wrapper=wrapper, max_abnormal=60)
+        return vlib.run_cases(binary, cases, tmo=tmo, shards=1, env=env, wrapper=wrapper, max_abnormal=20)
 
 
 # ----------------------------------------------------------------------------------------------------------------
@@ -210,7 +219,7 @@ def dist_cfg(n, steps, shape, fam, files, lensvals, lensmode, clens, roots, bcas
                _set(pats), DIST_INV))
 
 
-def dist_plan(n, thorough):
+def dist_plan(n, thorough, variant="serial"):
     """configurations for N processes: (label, cfg text).  'wr' = one write (or planted file) + one read with broad
     parameters (layouts); 'free' = every history of MaxSteps calls over few parameters (re-use of files and objects)"""
     roots = sorted({0, n - 1})
@@ -225,10 +234,12 @@ def dist_plan(n, thorough):
                  ("layout common", dist_cfg(n, 2, "wr", "common", ["A"], [0], "few", [0], roots, [True], both, [True], [1]))]
     depth = 4 if (thorough and n <= 2) else 3
     if n <= 3 or thorough:
-        plan += [("history comb", dist_cfg(n, depth, "free", "comb", ["A", "B"], [0], "hist", [0, 5] if thorough else [5], [n - 1], [True], [False], [True], [1]))]
+        plan += [("history comb", dist_cfg(n, depth, "free", "comb", ["A", "B"], [0], "hist", [0, 5] if (thorough and (depth == 3 or variant == "serial")) else [5], [n - 1], [True], [False], [True], [1]))]
     if n <= 2 or thorough:
-        plan += [("history ord", dist_cfg(n, depth, "free", "ord", ["A"], [0], "hist", [0], [0], [True], [False], both, [1])),
-                 ("history seq", dist_cfg(n, 3, "free", "seq", ["A"], [0], "hist", [0], [0], [True], [False], both if thorough else [True], [1]))]
+        plan += [("history ord", dist_cfg(n, depth, "free", "ord", ["A"], [0], "hist", [0], [0], [True], [False], both, [1]))]
+    # (the sequence functions share _write_file/_read_file between the builds: their histories run in the serial build, under MPI only in the thorough tier)
+    if variant == "serial" or thorough:
+        plan += [("history seq", dist_cfg(n, 3, "free", "seq", ["A"], [0], "hist", [0], [0], [True], [False], both if thorough else [True], [1]))]
     return plan
 
 
@@ -257,7 +268,7 @@ def run_dist(chk, binaries, ex, scratch, ranks):
     thorough = chk.tier == "thorough"
     gens = []
     for variant, n in ranks:
-        for label, text in dist_plan(n, thorough):
+        for label, text in dist_plan(n, thorough, variant):
             gens.append((ex.submit(gen_dist, n, label, text), variant, n, label))
     by = {}
     dropped = 0
@@ -378,6 +389,55 @@ def run_ckfile(chk, binaries, ex, scratch, ranks):
 
 
 # ----------------------------------------------------------------------------------------------------------------
+# the file NAME overloads of the containers (sample; generator: the registered spec/Persist.tla)
+# ----------------------------------------------------------------------------------------------------------------
+def iofile_plan(thorough):
+    # (kind, MaxM, MaxN, BH, BW, palette) as in checks/C05.py
+    plan = [("dv", 3, 1, 1, 1, 1), ("dvb", 2, 1, 2, 1, 1), ("sv", 3, 1, 1, 1, 1), ("csr", 2, 2, 1, 1, 1)]
+    if thorough:
+        plan += [("csr", 2, 3, 1, 1, 2), ("dv", 4, 1, 1, 1, 2), ("sv", 4, 1, 1, 1, 2)]
+    return plan
+
+
+def gen_iofile(kind, maxm, maxn, bh, bw, pal):
+    name = "gen_Persist_x%s_%d_%d_%d_%d.cfg" % (kind, maxm, maxn, pal, os.getpid())
+    _cfg(name, "SPECIFICATION Spec\nCONSTANTS Kind = \"%s\" MaxM = %d MaxN = %d BH = %d BW = %d Pal = %d\nINVARIANTS RoundTrip LayoutOK Emit\nCHECK_DEADLOCK FALSE\n"
+         % (kind, maxm, maxn, bh, bw, pal))
+    try:
+        return vlib.tlc("Persist", name, timeout=1500, xmx="3g")
+    finally:
+        _rm(name)
+
+
+def run_iofile(chk, binary, ex, scratch):
+    gens = [(ex.submit(gen_iofile, *p), p) for p in iofile_plan(chk.tier == "thorough")]
+    cases = []
+    for f, p in gens:
+        r = f.result()
+        chk.add_tlc(r, "Persist (file name overloads) %s %dx%d b%dx%d pal%d" % p)
+        if r.violation:
+            chk.model_violation(r, "Persist invariants (%s)" % (p,))
+        for c in r.printed:
+            if c["mode"] == "ser":          # serialize<DT2, IT2>() has no file name overload
+                continue
+            c["nr"] = 1
+            c["variant"] = "serial"
+            cases.append(c)
+    if not cases:
+        raise vlib.MachineryError("Persist generated no cases for the file name overloads")
+    t0 = time.time()
+    res = _replay(binary, cases, 1, "std", {"C05X_DIR": scratch})
+    pre = [(c, r) for c, r in zip(cases, res) if "precond:" in (r.get("why") or "")]
+    if pre:
+        raise vlib.MachineryError("binding defect: the real container state is not the state the specification assumes: %s" % pre[0][1].get("why"))
+    judge(chk, cases, res, "c05x_ckpt")
+    vlib.log("[c05x] iofile: %d write_out/read_from(mode, filename) behaviours replayed in %.1fs" % (len(cases), time.time() - t0))
+    chk.extra["iofile_behaviours"] = len(cases)
+    chk.extra["iofile_kinds_x_modes"] = sorted(set("%s/%s" % (c["kind"], c["mode"]) for c in cases))
+    return len(cases)
+
+
+# ----------------------------------------------------------------------------------------------------------------
 def plan_ranks(thorough):
     return [("serial", 1), ("mpi", 1), ("mpi", 2), ("mpi", 3), ("mpi", 4)] if thorough else [("serial", 1), ("mpi", 2), ("mpi", 3), ("mpi", 4)]
 
@@ -392,8 +452,9 @@ def run_ext(chk):
     ckranks = [r for r in ranks if r != ("mpi", 1) and (thorough or r != ("mpi", 4))]
     try:
         # TLC generation in two small pools (the many short PersistDist runs must not queue behind the longer ones), one replay thread per part
-        with cf.ThreadPoolExecutor(max_workers=4) as ex, cf.ThreadPoolExecutor(max_workers=3) as ex2, cf.ThreadPoolExecutor(max_workers=3) as parts:
+        with cf.ThreadPoolExecutor(max_workers=4) as ex, cf.ThreadPoolExecutor(max_workers=3) as ex2, cf.ThreadPoolExecutor(max_workers=4) as parts:
             futs = [parts.submit(run_pack, chk, pack, ex2),
+                    parts.submit(run_iofile, chk, ck_s, ex2, scratch),
                     parts.submit(run_dist, chk, {"serial": dist_s, "mpi": dist_m}, ex, scratch, ranks),
                     parts.submit(run_ckfile, chk, {"serial": ck_s, "mpi": ck_m}, ex2, scratch, ckranks)]
             total = sum(f.result() for f in futs)
@@ -414,7 +475,7 @@ RULE = ("spec/PersistPack.tla: every (machine type, pack type, machine type) tri
         "files of another process count, truncated, extended, with destroyed magic must be reported.  spec/PersistCkptFile.tla: checkpoints of 1..2(3) "
         "of 7 palette objects per rank (rank r holds the palette shifted by r), identifier maps, registration and restore orders of PersistCkpt.tla "
         "through save/load(filename) with 3 valid and 4 invalid file names, fresh control object, fresh process, re-save; optionally via "
-        "Global::Vector/Matrix.  non-trivial = non-empty payload; distinct = distinct call parameters / histories")
+        "Global::Vector/Matrix.  spec/Persist.tla (small bounds) through write_out/read_from(mode, FILE NAME) of dv, dvb, sv, csr in every binary and text mode.  non-trivial = non-empty payload; distinct = distinct call parameters / histories")
 ASSUMPTIONS = ["zlib / zfp / half / quad precision are compiled out of the baseline build: their pack types are only checked to be rejected",
                "floating point NaNs and narrowing of values that are NOT representable in the target type are not explored (the property is conditional on representability)",
                "payload bytes are generated by a fixed formula of (step, rank, position); sizes stay below 2^31 (TLC integers), so the upper 4 bytes of every u64 word are 0",
